@@ -267,7 +267,7 @@ func opGenAB(profile []kindW, maxAB int) *rapid.Generator[sim.Op] {
 			K: rapid.SampledFrom(kinds).Draw(t, "k"),
 			A: rapid.IntRange(0, maxAB).Draw(t, "a"),
 			B: rapid.IntRange(0, maxAB).Draw(t, "b"),
-			C: rapid.IntRange(0, 17).Draw(t, "c"),
+			C: rapid.IntRange(0, 23).Draw(t, "c"),
 			D: rapid.IntRange(0, 11).Draw(t, "d"),
 			U: rapid.Uint64Range(0, 4095).Draw(t, "u"),
 		}
